@@ -43,6 +43,7 @@ func runC12(c *Ctx) {
 	}
 	c.c12Store()
 	c.c12Parallelise()
+	c.c12StoreKeepsItsOwnArray()
 	c.c12NilResults()
 	c.noContextCause("T7", []string{"parallelisation", "commonerrors"})
 }
@@ -885,5 +886,48 @@ func (c *Ctx) c12NilResults() {
 			c.check(bad == "", "T6", key+":only-for-no-value", c.pos(f.Pos()), "a result is replaced by the zero value only where IsValid() answered false",
 				"the substitution at "+bad+" can be reached without IsValid() having answered false: results that are values (a zero integer, an empty string, a typed nil) are rewritten, and the multiset returned is no longer the multiset of what the invocations returned")
 		}
+	}
+}
+
+// c12StoreKeepsItsOwnArray (T9): "every cancel function registered in a cancel store is invoked by any Cancel that begins
+// after its registration". The store's list must be the store's own: a list built by appending onto the slice the caller
+// handed over (`append(cancel, s.cancelFunctions...)`) lives in the caller's array whenever that has spare capacity — the
+// caller's next append overwrites a function registered earlier, and the same list registered in two stores makes each
+// call the other's functions. Decided for package parallelisation: no append whose first operand is a slice parameter,
+// and no slice parameter stored into a field as it is.
+func (c *Ctx) c12StoreKeepsItsOwnArray() {
+	c.rule("T9", "no function of package parallelisation appends onto a slice it received as a parameter, or keeps such a slice in a field as it is: what a store holds lives in the store's own array", 1)
+	n := 0
+	for _, f := range c.srcFuncs(parPkg) {
+		if f.Blocks == nil {
+			continue
+		}
+		for _, prm := range f.Params {
+			if _, isSlice := prm.Type().Underlying().(*types.Slice); !isSlice {
+				continue
+			}
+			n++
+			bad := ""
+			withAnon(f, func(g *ssa.Function) {
+				allInstrs(g, func(in ssa.Instruction) {
+					switch x := in.(type) {
+					case *ssa.Call:
+						if calleeFull(&x.Call) == "builtin.append" && len(x.Call.Args) > 0 && resolveValue(x.Call.Args[0]) == ssa.Value(prm) {
+							bad = "append onto it at " + c.ipos(in)
+						}
+					case *ssa.Store:
+						if _, isField := x.Addr.(*ssa.FieldAddr); isField && resolveValue(x.Val) == ssa.Value(prm) {
+							bad = "kept in a field at " + c.ipos(in)
+						}
+					}
+				})
+			})
+			c.FuncsSeen[fname(f)] = true
+			c.check(bad == "", "T9", fname(f)+"/own-array:"+prm.Name(), c.pos(f.Pos()), "the slice received is only read (its elements are copied where they are kept)",
+				"the slice "+prm.Name()+" received from the caller becomes the backing array of what the function keeps ("+bad+"): registered with `list...` on a slice with spare capacity, the functions registered earlier are written into the caller's array — the caller's next append replaces one of them, a later Cancel never invokes it (and invokes one that was never registered)")
+		}
+	}
+	if n == 0 {
+		c.info("T9", parPkg+"/no-slice-parameters", "-", "no function of the package receives a slice")
 	}
 }
